@@ -264,7 +264,56 @@ func (c *RealCase) Exec(t *eng.T) {
 	}
 }
 
+// TwoDirCase: a set with two LocalFilesystemLoaders, each with a base directory of its own. A template served by
+// the first refers (by a plain name) to a file only the second has: "the first loader that has a name wins".
+type TwoDirCase struct {
+	Ref string `json:"ref"` // include | include-lazy | extends | import | ssi | ssi-parsed
+}
+
+func (c *TwoDirCase) ID() string { return "two base directories, " + c.Ref + " of a file only the second has" }
+
+func (c *TwoDirCase) Exec(t *eng.T) {
+	t.Nontrivial()
+	a, err1 := os.MkdirTemp("", "verif-c11a-")
+	b, err2 := os.MkdirTemp("", "verif-c11b-")
+	if err1 != nil || err2 != nil {
+		t.Skip()
+		return
+	}
+	defer os.RemoveAll(a)
+	defer os.RemoveAll(b)
+	rc := &RealCase{Ref: c.Ref, Name: "only_b.tpl"}
+	target := "T<only_b>"
+	switch c.Ref {
+	case "extends":
+		target = "B<only_b>{% block a %}base{% endblock %}"
+	case "import":
+		target = "{% macro m() export %}M<only_b>{% endmacro %}"
+	}
+	os.WriteFile(filepath.Join(a, "main.tpl"), []byte(rc.mainSrc()), 0o644)
+	os.WriteFile(filepath.Join(b, "only_b.tpl"), []byte(target), 0o644)
+	set := pongo2.NewSet("c11-twodirs", pongo2.MustNewLocalFileSystemLoader(a), pongo2.MustNewLocalFileSystemLoader(b))
+	direct, derr := set.FromFile("only_b.tpl")
+	if derr != nil || direct == nil {
+		t.Fail("harness:twodirs", "%s: the set cannot load only_b.tpl directly: %v", c.ID(), derr)
+		return
+	}
+	tpl, out := px.CompileFile(set, "main.tpl")
+	if tpl != nil {
+		out = px.Exec(tpl, pongo2.Context{"name": "only_b.tpl"})
+	}
+	t.Outcome(out.Kind())
+	want := map[string]string{"include": "[T<only_b>]", "include-lazy": "[T<only_b>]", "extends": "B<only_b>child", "import": "[M<only_b>]", "ssi": "[T<only_b>]", "ssi-parsed": "[T<only_b>]"}[c.Ref]
+	if out.Failed() || out.S != want {
+		t.Fail("loader:later-loader-unreachable:"+c.Ref, "%s: the set loads only_b.tpl when asked directly (FromFile), but main.tpl (first directory) referring to it renders %s, want %q", c.ID(), out, want)
+	}
+}
+
 func runReal(r *eng.Runner) {
+	r.Group("two-base-directories", "c11.twodirs", "two LocalFilesystemLoaders with different base directories in one set: a template of the first refers by a plain name to a file only the second has, through each of the 6 reference kinds")
+	for _, ref := range []string{"include", "include-lazy", "extends", "import", "ssi", "ssi-parsed"} {
+		r.Do(&TwoDirCase{Ref: ref})
+	}
 	r.Group("real-loaders", "c11.real", "pongo2's own loaders (FSLoader and HttpFilesystemLoader with and without base directory over an in-memory fs, LocalFilesystemLoader with and without base directory and SandboxedFilesystemLoader over a scratch directory) behind a recording wrapper: 6 reference kinds x 2 referrer locations x 9 written names (plain, ./, sub directory, ../, detours, rooted, missing) with a second relative hop from the target; resolution rule per loader as documented in template_loader.go")
 	names := []string{"t.tpl", "./t.tpl", "sub/t.tpl", "../t.tpl", "d/t.tpl", "sub/../t.tpl", "d/sub/t.tpl", "nofile.tpl", "../../t.tpl"}
 	for _, l := range []string{"fs", "local", "local-base", "http", "http-base", "sandboxed"} {
@@ -280,4 +329,5 @@ func runReal(r *eng.Runner) {
 
 func init() {
 	eng.RegisterCase("c11.real", func() eng.Case { return &RealCase{} })
+	eng.RegisterCase("c11.twodirs", func() eng.Case { return &TwoDirCase{} })
 }
